@@ -6383,7 +6383,18 @@ class PyCdlib:
         if rec.inode is None:
             raise pycdlibexception.PyCdlibInvalidInput('File has no data')
 
-        return pycdlibio.PyCdlibIO(rec.inode, self.logical_block_size)
+        # A very large file consists of several Directory Records, each with
+        # an Inode for its own part of the data.
+        continuation_inos = []
+        if isinstance(rec, dr.DirectoryRecord):
+            part = rec.data_continuation
+            while part is not None:
+                if part.inode is not None:
+                    continuation_inos.append(part.inode)
+                part = part.data_continuation
+
+        return pycdlibio.PyCdlibIO(rec.inode, self.logical_block_size,
+                                   continuation_inos)
 
     def has_rock_ridge(self):
         # type: () -> bool
